@@ -6,6 +6,10 @@
    finished archive with its own parser.
    rows: per call [status; value] as Run.c09_run; then per file, sorted by name,
    [10; |name|; name..; number of offsets]; then [7; files; runs; name bytes; wmem]. *)
+From MLA Require Import Limit.
+From MLAGen Require Src.
+(* executable entry points: the production value of BINCODE_MAX_DESERIALIZE (the same in both flavours), file-local *)
+#[local] Instance RUN_LIMIT : Limit := MLAGen.Src.BINCODE_MAX_DESERIALIZE_prod.
 From MLA Require Import Base Stream Inst Run Blocks Writer MemSize.
 Open Scope N_scope.
 
